@@ -241,6 +241,13 @@ func judgeKeys(w *proxyWorld, res *Result) {
 					}
 					if len(cons) > 0 && (pv.ex.Req.Target != ex.Req.Target || phost != host) {
 						rel := relationOf(pv.ex.Req.Target, ex.Req.Target, false, phost != host)
+						for _, tg := range []string{pv.ex.Req.Target, ex.Req.Target} {
+							if pth, _, _ := strings.Cut(tg, "?"); strings.Contains(pth, "|") && strings.Contains(strings.ToUpper(pth), "%2F") {
+								// same root cause as the C02.a finding: the path of that request was re-encoded
+								// from its decoded form, its "%2F" became a real slash before normalisation
+								rel = "encoded-slash next to a raw '|' in the path (net/url re-encodes the path)"
+							}
+						}
 						res.violate("C02.b", "not-shared: "+rel, "%s names the same resource as the earlier %s%s but was fetched from the origin again [%s]", desc, phost, pv.ex.Req.Target, pd)
 					}
 					if len(cons) == 0 {
